@@ -1,4 +1,5 @@
 import Parmcb.Props.C02b
 import Parmcb.Props.C02c
 import Parmcb.Props.C02d
+import Parmcb.Props.C02e
 /-! all property theorems of C02 -/
